@@ -60,6 +60,9 @@ type c14Case struct {
 	Patches []string  `json:"patches"` // cli: 1-2 patch files; api: exactly one
 	Changes []string  `json:"changes"` // where each change came from (labels)
 	Files   []c14File `json:"files"`
+	// Extra: files of the tree that are not Go sources (a go.mod, say);
+	// present in every run of the case, never among the arguments.
+	Extra []c14File `json:"extra,omitempty"`
 
 	// cli
 	Args        []string `json:"args,omitempty"`  // grouped invocation, relative spelling
@@ -159,6 +162,16 @@ var c14Specials = []c14Special{
 			"c14scope(func() {\n\tc14keep()\n\tc14dbg(\n\t\t// inside the call\n\t\t3,\n\t)\n\n\tc14old()\n})",
 			"c14scope(func() {\n\tc14dbg(4) // trailing\n\tc14old()\n})",
 		},
+	},
+	{
+		// The file imports a package of the module that sub/go.mod (an
+		// extra file of some trees) declares, next to another third-party
+		// package, in one block: how these are grouped must not depend on
+		// which other files are processed in the same run.
+		Label:  "module-imports",
+		Text:   "@@\nvar x expression\n@@\n-c14modcall(x)\n+c14modcall(x, 1)\n",
+		Plants: []string{"c14modcall(0)", "_ = c14modcall(c14n)"},
+		Host:   "package c14mod\n\nimport (\n\t\"example.com/c14mod/util\"\n\t\"github.com/c14other/dep\"\n\t\"golang.org/x/c14third/z\"\n)\n\nfunc c14use() {\n\tutil.Do()\n\tdep.Do()\n\tz.Do()\n}\n\nfunc c14more(n int) int {\n\tn++\n\treturn n\n}\n",
 	},
 	{
 		// An argument is dropped; in the file it may hold a comment, on the
@@ -539,6 +552,10 @@ func c14DrawCase(rt *rapid.T) *c14Case {
 				}
 			}
 		}
+		if rapid.IntRange(0, 2).Draw(rt, "moduleFile") == 0 {
+			dir := rapid.SampledFrom([]string{"sub/", "sub/deep/", ""}).Draw(rt, "moduleDir")
+			cs.Extra = append(cs.Extra, c14File{Name: dir + "go.mod", Src: "module example.com/c14mod\n\ngo 1.22\n", Role: "module-file"})
+		}
 		cs.Mode = rapid.SampledFrom([]string{"inplace", "inplace", "inplace", "inplace", "diff", "diff", "print"}).Draw(rt, "mode")
 		cs.Verbose = rapid.Bool().Draw(rt, "verbose")
 		cs.SkipGen = rapid.IntRange(0, 2).Draw(rt, "skipGenerated") > 0
@@ -714,6 +731,9 @@ func c14CLIRun(base string, cs *c14Case, tree []c14File, args []string) *c14Run 
 	}
 	m := map[string]string{}
 	for _, f := range tree {
+		m[f.Name] = f.Src
+	}
+	for _, f := range cs.Extra {
 		m[f.Name] = f.Src
 	}
 	if err := run.WriteTree(root, m); err != nil {
